@@ -249,12 +249,13 @@ func (s *pipeState) rawOp(op, ver string, data []byte) outcome {
 		return s.dov(op, func() { senderIDMethods(spec.SenderID(data)) })
 	case "ParseIdentifier:SplitID":
 		return s.do(op, func() error {
-			sg := byte('@')
-			if len(data) > 0 {
-				sg = data[0]
+			var first error
+			for _, sg := range []byte{'@', '!', '$', '#'} {
+				if _, _, err := gmsl.SplitID(sg, string(data)); err != nil && first == nil {
+					first = err
+				}
 			}
-			_, _, err := gmsl.SplitID(sg, string(data))
-			return err
+			return first
 		})
 	case "Body:CheckStateResponse":
 		return s.do(op, func() error {
